@@ -5,6 +5,8 @@ From Coq Require Import List ZArith Reals Lra Lia.
 Require Import PP.Expr PP.RealOps PP.PolyFacts PP.Model.PwModel PP.Proofs.IntegralProofs PP.Gen.Kernels.
 (* the binary64-level statements (jump at a breakpoint) live in C11F.v; they are re-exported from here *)
 Require Export PP.Props.C11F.
+(* ... and for log-polynomial pieces (every degree, the quartic with its two branches) in C11L.v *)
+Require Export PP.Props.C11L.
 Import ListNotations.
 Local Open Scope R_scope.
 
